@@ -25,8 +25,9 @@ def nontrivial_case(c):
     return len(set(ps)) < len(ps) or len(blocks) > len(levels) or gap
 
 
-def run_family(prop, tier, seed, replay, origin="writer", mc_cfg=None, level="model_checking", extra_rule="", also_indep=False):
-    run = C.Run(prop, tier, seed, level)
+def run_family(prop, tier, seed, replay, origin="writer", mc_cfg=None, level="model_checking", extra_rule="", also_indep=False,
+               run=None, finish=True):
+    run = run or C.Run(prop, tier, seed, level)
     replay_sparse = []
     d = C.outdir(prop)
     hb = C.build_harness()
@@ -35,7 +36,7 @@ def run_family(prop, tier, seed, replay, origin="writer", mc_cfg=None, level="mo
     mc = None
     if replay:
         rec = json.load(open(replay))
-        rc = [fl["replay_case"] for fl in rec["failures"] if fl.get("replay_case")]
+        rc = [fl["replay_case"] for fl in rec["failures"] if fl.get("replay_case") and fl["replay_case"].get("k") == "case"]
         with open(cases, "w") as f:
             for c in rc:
                 if not c.get("sparse"):
@@ -141,4 +142,4 @@ def run_family(prop, tier, seed, replay, origin="writer", mc_cfg=None, level="mo
                  "sparse_cases": s3["cases"], "sparse_not_completed": s3["not_completed"]}
     run.assumptions = ["flate2/brotli/rusqlite crates are trusted codecs for the independent decoder",
                        "payload identity is byte equality with the generated payload of that id"]
-    return run.finish()
+    return run.finish() if finish else run
